@@ -366,6 +366,18 @@ class Program:
         if self.end["functions"] != len(self.fns):
             raise RuntimeError("facts file %s: function count mismatch" % path)
 
+    def derived_clone_fns(self, adt_path):
+        """paths of `clone` functions of a #[derive(Clone)] impl for the given type: a derived clone copies a value field by field, so it
+        preserves every invariant the constructor establishes (rules of the form "values are built only by X" accept it)"""
+        out = set()
+        short = adt_path.rsplit("::", 1)[-1]
+        for im in self.impls:
+            if im.get("derived") and (im.get("trait") or "").endswith("clone::Clone") and (im.get("self") or {}).get("path") == adt_path:
+                for p in self.fns:
+                    if p.endswith("::clone") and "Clone" in p and short in p:
+                        out.add(p)
+        return out
+
     def fn(self, path):
         return self.fns.get(path)
 
